@@ -323,9 +323,7 @@ def oracle(p):
                     dev = float((y - x).abs().max())
                     note("fresh")
                     if dev > tol:
-                        site = {"QuaternionRotation": "QuaternionRotation.reset_parameters", "RigidQuaternionTransform": "QuaternionRotation.reset_parameters",
-                                "HomogeneousTransform": "HomogeneousTransform.reset_parameters"}.get(name, name + ".reset_parameters")
-                        fail(f"C06:{site}:default-not-identity" + (":via-RigidQuaternionTransform" if name == "RigidQuaternionTransform" else ""),
+                        fail(f"C06:{name}.reset_parameters:default-not-identity",
                              f"freshly constructed {name} (D={D}, groups={groups}) moves points by up to {dev:.3g} cube units "
                              f"(tensor() = {t.tensor()[0].tolist()})", cls=name, D=D)
                 except Exception as e:  # noqa
